@@ -28,6 +28,9 @@ type evalEnv struct {
 	preNames map[string]Value
 	letCache map[string]Value
 	qdepth   int
+	loopEntry *State // state on entry to the loop whose invariant is being evaluated
+	loopEntryNames map[string]Value
+	inEntry bool
 	depth  int
 }
 
@@ -67,6 +70,9 @@ func (env *evalEnv) state() *State {
 	if env.inOld && env.old != nil {
 		return env.old
 	}
+	if env.inEntry && env.loopEntry != nil {
+		return env.loopEntry
+	}
 	return env.st
 }
 
@@ -82,7 +88,7 @@ func (env *evalEnv) readComp(name, sort string) string {
 
 // readAt reads component name at reference ref.
 func (env *evalEnv) readAt(name, sort, ref string) string {
-	if env.post != nil && !env.inOld {
+	if env.post != nil && !env.inOld && !env.inEntry {
 		return env.post.read(name, sort, ref)
 	}
 	return sel(env.fr.run.heap.get(env.state(), name, sort), ref)
@@ -363,6 +369,8 @@ func (fr *Frame) evalLet(name string, le Expr, env *evalEnv) (Value, error) {
 	key := name
 	if env.inOld {
 		key += "|old"
+	} else if env.inEntry {
+		key += "|entry"
 	}
 	if env.qdepth == 0 && env.letCache != nil {
 		if v, ok := env.letCache[key]; ok {
@@ -452,14 +460,22 @@ func (fr *Frame) indexValue(v, iv Value, env *evalEnv) (Value, error) {
 		}
 		terms := make([]string, len(ls))
 		for j, l := range ls {
-			terms[j] = sel(env.readAt(elemComp(x.Elem)+l.suffix, sArr(sRef, sArr(sBV(64), l.sort)), x.Base), "(bvadd "+x.Off+" "+idx+")")
+			arr := env.readAt(elemComp(x.Elem)+l.suffix, sArr(sRef, sArr(sBV(64), l.sort)), x.Base)
+			if env.qdepth > 0 {
+				arr = r.ctx.defineConst("qarr", sArr(sBV(64), l.sort), arr)
+			}
+			terms[j] = sel(arr, "(bvadd "+x.Off+" "+idx+")")
 		}
 		return valueFromLeaves(x.Elem, terms), nil
 	case *SeqV:
 		if err != nil {
 			return nil, err
 		}
-		t := sel(x.Arr, "(bvadd "+x.Off+" "+idx+")")
+		arr := x.Arr
+		if env.qdepth > 0 && env.spec == nil {
+			arr = r.ctx.defineConst("qarr", sArr(sBV(64), x.ElemSort), arr)
+		}
+		t := sel(arr, "(bvadd "+x.Off+" "+idx+")")
 		return &Sc{T: t, K: x.ElemK, W: x.ElemW, Signed: x.ElemSigned, Ty: x.ElemTy}, nil
 	case *AddrV:
 		if x.Kind == "arr" {
@@ -488,7 +504,11 @@ func (fr *Frame) indexValue(v, iv Value, env *evalEnv) (Value, error) {
 			} else {
 				return nil, fmt.Errorf("ghost array index sort mismatch")
 			}
-			return scalarOfSort(sel(x.T, it), es), nil
+			at := x.T
+			if env.qdepth > 0 && env.spec == nil {
+				at = r.ctx.defineConst("qarr", x.Sort, at)
+			}
+			return scalarOfSort(sel(at, it), es), nil
 		}
 		if x.K == kRef && x.Ty != nil {
 			if mt, ok := x.Ty.Underlying().(*types.Map); ok {
@@ -523,6 +543,51 @@ func (fr *Frame) indexValue(v, iv Value, env *evalEnv) (Value, error) {
 		}
 	}
 	return nil, fmt.Errorf("index of %T", v)
+}
+
+// selectPatterns proposes E-matching triggers for a quantified body: every array read
+// whose index mentions the bound variable and whose array does not.
+func selectPatterns(body, bv string) string {
+	seen := map[string]bool{}
+	var pats []string
+	for i := 0; i+8 <= len(body); i++ {
+		if body[i:i+8] != "(select " {
+			continue
+		}
+		depth := 0
+		j := i
+		for ; j < len(body); j++ {
+			if body[j] == '(' {
+				depth++
+			} else if body[j] == ')' {
+				depth--
+				if depth == 0 {
+					break
+				}
+			}
+		}
+		term := body[i : j+1]
+		parts := splitSexprArgs(term)
+		if len(parts) != 3 {
+			continue
+		}
+		hasBV := func(s string) bool {
+			for _, t := range tokens(s) {
+				if t == bv {
+					return true
+				}
+			}
+			return false
+		}
+		if hasBV(parts[2]) && isAtom(parts[1]) && !seen[term] && !strings.Contains(parts[2], "(ite") && !strings.Contains(parts[2], "(select") {
+			seen[term] = true
+			pats = append(pats, ":pattern ("+term+")")
+		}
+	}
+	if len(pats) > 4 {
+		pats = pats[:4]
+	}
+	return strings.Join(pats, " ")
 }
 
 func arrSorts(s string) (string, string) {
@@ -790,6 +855,19 @@ func (fr *Frame) evalCall(x *ECall, env *evalEnv) (Value, error) {
 		v, err := arg(0)
 		env.inOld = save
 		return v, err
+	case "atentry":
+		// atentry(e): e evaluated in the state in which the enclosing loop was entered
+		if env.loopEntry == nil {
+			return nil, fmt.Errorf("atentry() is only available in loop clauses")
+		}
+		saveEntry, saveNames := env.inEntry, env.names
+		env.inEntry = true
+		if env.loopEntryNames != nil {
+			env.names = env.loopEntryNames
+		}
+		v, err := arg(0)
+		env.inEntry, env.names = saveEntry, saveNames
+		return v, err
 	case "pre":
 		// pre(x): value of a loop-carried variable at the loop head (in loop assert clauses)
 		if env.preNames == nil {
@@ -878,6 +956,10 @@ func (fr *Frame) evalCall(x *ECall, env *evalEnv) (Value, error) {
 		}
 		rng := and("(bvsle "+los+" "+bvn+")", "(bvslt "+bvn+" "+his+")")
 		if x.Fn == "forall" {
+			pats := selectPatterns(body, bvn)
+			if pats != "" {
+				return boolV(fmt.Sprintf("(forall ((%s (_ BitVec 64))) (! (=> %s %s) %s))", bvn, rng, body, pats)), nil
+			}
 			return boolV(fmt.Sprintf("(forall ((%s (_ BitVec 64))) (=> %s %s))", bvn, rng, body)), nil
 		}
 		return boolV(fmt.Sprintf("(exists ((%s (_ BitVec 64))) (and %s %s))", bvn, rng, body)), nil
